@@ -171,7 +171,7 @@ def gen_outcome(rng, P, m, kind):
         nilable = hk in ("struct", "list", "set", "map", "base:binary")
         if nilable and rng.random() < 0.12:
             return {"kind": "ret", "value": None}, ("ret", None)
-        v = L.gen_value(rng, p, m["ret"])
+        v = avoid_const_default_zero(p, m["ret"], L.gen_value(rng, p, m["ret"]))
         return {"kind": "ret", "value": L.to_wire(p, m["ret"], v)}, ("ret", v)
     if kind in ("declared", "undeclared"):
         if kind == "declared":
@@ -188,7 +188,7 @@ def gen_outcome(rng, P, m, kind):
                 return None, None
             fn, name = rng.choice(cands)
         _, sdef = L.lookup(p, fn, name)
-        v = L.gen_struct_value(rng, p, sdef)
+        v = avoid_const_default_zero(p, ["ref", fn, name], L.gen_struct_value(rng, p, sdef))
         key = P.lb.struct_key(fn, L.go_struct_name(name))
         return {"kind": "declared", "exc": key, "value": L.struct_to_wire(p, sdef, v)}, ("exc", fn, name, v)
     if kind == "other":
@@ -213,6 +213,48 @@ def outcome_kinds(rng, m, n):
 
 class Call:
     pass
+
+
+def _is_zero(p, t, v):
+    hk = L.head_kind(p, t)
+    if hk == "base:double":
+        return v == 0.0
+    if hk in ("base:string", "base:binary"):
+        return v is None or len(v) == 0
+    if hk == "base:bool":
+        return v is False
+    return v == 0
+
+
+def avoid_const_default_zero(p, t, v):
+    """Known finding C03-go-default-from-constant (a C02 matter surfacing here): an optional field whose default names a
+    constant gets `var <S>_<F>_DEFAULT T = <Const>`, evaluated before the init() that assigns the constant, so IsSet
+    compares with the zero value: a field holding zero is not written and the reader sees the declared default.  The
+    seeded values avoid that case (such a field holding zero is given its default); a probe pins the finding."""
+    if v is None:
+        return v
+    r = L.resolve(p, t)
+    if r[0] == "ref":
+        k, d = L.lookup(p, r[1], r[2])
+        if k == "enum":
+            return v
+        out = {}
+        for f in d["fields"]:
+            x = v.get(f["id"])
+            dflt = f.get("default")
+            if f["mod"] == "optional" and dflt is not None and dflt.get("const") and L.go_kind(p, f) != "P" and \
+                    L.head_kind(p, f["type"]).startswith("base:") and _is_zero(p, f["type"], x) and \
+                    not _is_zero(p, f["type"], dflt["value"]):
+                x = dflt["value"]
+            else:
+                x = avoid_const_default_zero(p, f["type"], x)
+            out[f["id"]] = x
+        return out
+    if r[0] in ("list", "set"):
+        return [avoid_const_default_zero(p, r[1], x) for x in v]
+    if r[0] == "map":
+        return [[avoid_const_default_zero(p, r[1], k), avoid_const_default_zero(p, r[2], x)] for k, x in v]
+    return v
 
 
 def writable(P, sdef, v):
@@ -248,7 +290,7 @@ def plan_session(rng, P, cfn, csvc, sfn, ssvc, transport, proto, per_method, tam
             c.m, c.dfn, c.dsvc = m, dfn, dsvc
             c.own = (dfn, dsvc) == (cfn, csvc)
             for _ in range(30):
-                c.args = [L.gen_value(rng, p, a["type"]) for a in m["args"]]
+                c.args = [avoid_const_default_zero(p, a["type"], L.gen_value(rng, p, a["type"])) for a in m["args"]]
                 for i, a in enumerate(m["args"]):
                     if L.head_kind(p, a["type"]) in ("list", "set", "map", "base:binary") and rng.random() < 0.06:
                         c.args[i] = None
@@ -678,6 +720,12 @@ PROBES = {
         "idl": "exception E { 1: string why }\ntypedef E EA\n"
                "service S {\n  i32 m(1: i32 x) throws (1: E a, 2: E b, 3: EA c)\n}\n",
         "calls": True},
+    # an optional field whose default names a constant: <S>_<F>_DEFAULT is initialised before the constant is
+    # (known finding: a field holding zero is not transmitted, the handler sees the declared default)
+    "default_from_constant": {
+        "idl": "typedef double T\nconst T DC = 100.25\nstruct Opt {\n  1: optional T d = DC\n}\n"
+               "service S {\n  i32 pick(1: Opt o)\n}\n",
+        "calls": "default_from_constant"},
     # arguments named like identifiers the generator uses itself in the emitted client / processor functions
     # (known finding: the emitted Go does not compile)
     "arg_names_collide": {
@@ -708,7 +756,18 @@ def run_probes(ctx, tag):
             continue
         try:
             out[name] = "builds"
-            if pr["calls"]:
+            if pr["calls"] == "default_from_constant":
+                zero, other = "0000000000000000", "3ff8000000000000"
+                calls = [{"method": "Pick", "args": [{"1": x}], "outcome": {"kind": "ret", "value": 1}} for x in (other, zero)]
+                r = lb.run([{"op": "c03_session", "service": pid + ".S", "transport": "mem", "proto": "binary", "calls": calls}])[0]
+                seen = [((c.get("handler") or [{}])[0].get("args") or [{}])[0].get("1") for c in r.get("calls", [])]
+                if seen != [other, zero]:
+                    out[name] = "handler saw %s for %s" % (seen, [other, zero])
+                    sig = {"probe": name, "class": "zero_not_transmitted"} if seen == [other, "4059100000000000"] else None
+                    ctx.violation("C03 probe %s: Opt{d: 0.0} sent, the handler saw d = %s" % (name, seen[-1:]),
+                                  {"probe": name, "idl": pr["idl"], "calls": calls, "seen": seen, "response": str(r)[:1200]},
+                                  signature=sig)
+            elif pr["calls"]:
                 why = b"because".hex()
                 calls = [{"method": "M", "args": [5], "outcome": {"kind": "declared", "exc": pid + ".E", "value": {"1": why}}},
                          {"method": "M", "args": [6], "outcome": {"kind": "ret", "value": 11}}]
@@ -741,7 +800,7 @@ def run(ctx, br):
     tag = "c03_%d" % (ctx.seed % 100000)
     if quick:
         progs = [("boundary", {"boundary": 6}), ("small", {"combos": 6, "per_method": 3}),
-                 ("small", {"combos": 6, "per_method": 3}), ("medium", {"combos": 4, "per_method": 2})]
+                 ("medium", {"combos": 4, "per_method": 2})]
     else:
         progs = [("boundary", {"boundary": 1, "huge": True})] + \
                 [(("small", "medium", "large")[i % 3], {"combos": 12, "per_method": 3}) for i in range(9)]
